@@ -246,7 +246,7 @@ func checkBudgetTransport(r *Run, prog *Program, a *Anchors, newParser, maxExprO
 		for _, b := range wme.AnonFuncs[0].Blocks {
 			for _, ins := range b.Instrs {
 				if st, ok := ins.(*ssa.Store); ok {
-					if fa, ok := st.Addr.(*ssa.FieldAddr); ok && fieldName(fa.X.Type(), fa.Field) == "withMaxExpressions" {
+					if fa, ok := st.Addr.(*ssa.FieldAddr); ok && fieldName(fa.X.Type(), fa.Field) == optField(prog, "WithMaxExpressions") {
 						if isCaptured(st.Val) {
 							okCtor = true
 						}
@@ -268,7 +268,7 @@ func checkBudgetTransport(r *Run, prog *Program, a *Anchors, newParser, maxExprO
 				r.Check(pfx+".transport", "CreateEvaluator:getOpts", prog.pos(ev.Instr.Pos()), false, "CreateEvaluator does not fold its options with getOpts")
 				continue
 			}
-			budget := &Sym{K: sField, A: lf.getOpts.Res, Str: "withMaxExpressions"}
+			budget := &Sym{K: sField, A: lf.getOpts.Res, Str: optField(prog, "WithMaxExpressions")}
 			isZero, known := evalEq(sm.St, budget, &Sym{K: sConst, C: constant.MakeInt64(0)})
 			if !known {
 				r.Check(pfx+".transport", "CreateEvaluator:zero-test", prog.pos(ev.Instr.Pos()), false, "grammar.Parse is reached without testing the budget for zero")
